@@ -134,6 +134,10 @@ def judge(ck, inp, probe, outputs, observed, ans, ctl):
         if ob.crash:
             ck.oracle_fail('no_crash', dict(inp, session=si), {'crash': ob.crash}, {'exception': ob.crash[0]})
             return
+        if ob.status not in ('ok', 'failed', 'aborted'):     # e.g. exit 3: the data file cannot be loaded any more
+            ck.oracle_fail('session_runs', dict(inp, session=si), {'status': ob.status, 'stderr': ob.stderr[-300:]},
+                           {'status': ob.status})
+            return
         if ob.status == 'aborted' and ob.exit != 2:
             ck.oracle_fail('exit_status_aborted', dict(inp, session=si), {'exit': ob.exit})
     complete = [i for i, ob in enumerate(observed) if ob.status in ('ok', 'failed')]
@@ -226,9 +230,10 @@ def cli_sessions(ck, n_scen, forced=()):
         n_inv = rng.randint(1, 2)
         specs.append({'sig': rng.choice(['INT', 'TERM', 'KILL']), 'runs': n_runs, 'inv': n_inv,
                       'k': rng.randint(1, n_runs * n_inv), 'sched': rng.choice(SCHEDS),
-                      'iters': rng.choice([2, 2, 3, 80])})
+                      'iters': rng.choice([2, 2, 3, 80]), 'debug': rng.random() < 0.5})
     for idx, sp in enumerate(specs):
         sig, n_runs, n_inv, k, sched, iters = sp['sig'], sp['runs'], sp['inv'], sp['k'], sp['sched'], sp['iters']
+        debug = bool(sp.get('debug'))     # -d: the output is read line by line while the process runs
         wd = os.path.join(ck.scratch, 'cli%d' % idx)
         os.makedirs(wd)
         harness = os.path.join(wd, 'harness.sh')
@@ -248,9 +253,9 @@ def cli_sessions(ck, n_scen, forced=()):
             if os.path.exists(os.path.join(wd, 'count')):
                 os.unlink(os.path.join(wd, 'count'))
             env = dict(os.environ, PYTHONPATH=lib.REPO, PYTHONDONTWRITEBYTECODE='1', PYTHONHASHSEED='0')
-            launcher = ('import os,sys; open(%r,"w").write(str(os.getpid())); sys.argv=["rebench","-D","-s",%r,%r]; '
+            launcher = ('import os,sys; open(%r,"w").write(str(os.getpid())); sys.argv=["rebench","-D"%s,"-s",%r,%r]; '
                         'from rebench.rebench import main_func; sys.exit(main_func())'
-                        % (os.path.join(wd, 'rebench.pid'), sched, conf))
+                        % (os.path.join(wd, 'rebench.pid'), ',"-d"' if debug else '', sched, conf))
             p = subprocess.Popen([sys.executable, '-B', '-c', launcher], cwd=wd, env=env,
                                  stdout=subprocess.PIPE, stderr=subprocess.PIPE)
             try:
@@ -268,10 +273,10 @@ def cli_sessions(ck, n_scen, forced=()):
         rc3 = session(0)
         text3 = dp.read_text(os.path.join(wd, 'cli.data'))
         ck.impl_traces += 3
-        ck.count('cli:' + sig + (':big-output' if iters >= 60 else ''))
+        ck.count('cli:' + sig + (':big-output' if iters >= 60 else '') + (':-d' if debug else ''))
         ck.case(nontrivial_key=('cli', idx, sig, k, sched, iters),
                 sample={'signal': sig, 'stop': k, 'sched': sched, 'iterations': iters, 'exit': [rc1, rc2, rc3]})
-        inp = {'cli': True, 'signal': sig, 'stop': k, 'sched': sched, 'runs': n_runs, 'invocations': n_inv,
+        inp = {'cli': True, 'signal': sig, 'stop': k, 'sched': sched, 'runs': n_runs, 'invocations': n_inv, 'debug': debug,
                'iterations_per_invocation': iters}
         want_rc = {'INT': 2, 'TERM': 2, 'KILL': -9}[sig]
         if rc1 != want_rc:
@@ -301,7 +306,7 @@ def cli_sessions(ck, n_scen, forced=()):
 
 
 BIG_KILL = [{'sig': 'KILL', 'runs': 2, 'inv': 2, 'k': 2, 'sched': 'batch', 'iters': 80},
-            {'sig': 'KILL', 'runs': 2, 'inv': 2, 'k': 4, 'sched': 'round-robin', 'iters': 80}]
+            {'sig': 'KILL', 'runs': 2, 'inv': 2, 'k': 4, 'sched': 'round-robin', 'iters': 80, 'debug': True}]
 
 
 # ---------------------------------------------------------------- torn tail
@@ -312,7 +317,7 @@ def well_formed_rows(text):
         if line == '' or line.startswith('#') or line == dp.HEADER:
             continue
         cols = line.split('\t')
-        if len(cols) == 15 and cols[0].isdigit() and cols[1].isdigit() and cols[14].isdigit():
+        if len(cols) >= 15 and cols[0].isdigit() and cols[1].isdigit() and cols[-1].isdigit():
             out.append('\t'.join(cols[:-1]))
     return sorted(out)
 
@@ -365,7 +370,8 @@ def torn_tail_chains(ck, n_scen):
             n_rows = sum(len(ms) for ms in outs1[last[1]][last[2] - 1])
             text = ob1.files[0]
             block = text.split('\n')[:-1][-n_rows:]
-            if not all(l.split('\t')[0] == str(last[2]) and l.split('\t')[5:14] == probe1.runs[last[1]]['cols']
+            if not all(l.split('\t')[0] == str(last[2]) and
+                       '\t'.join(l.split('\t')[5:-1]) == '\t'.join(probe1.runs[last[1]]['cols'])
                        for l in block):
                 continue
             spec1m = dict(spec1, order=[i for i in (ob1.order or []) if i is not None])
@@ -562,7 +568,7 @@ def parallel_interrupt_slice(ck, n):
         if interrupted is not None:
             run = probe.runs[interrupted[0]]
             leaked = [r for r in c06.dp_rows(ob1.files[0], False)
-                      if r[0] == str(interrupted[1]) and r[5:14] == run['cols']]
+                      if r[0] == str(interrupted[1]) and '\t'.join(r[5:-1]) == '\t'.join(run['cols'])]
             if leaked:
                 ck.oracle_fail('interrupted_not_recorded', inp, {'invocation': list(interrupted), 'rows': leaked[:3]}, sig)
             restarted = [s for s in ob2.starts if s[0] == 'r' and (s[1], s[2]) == interrupted]
